@@ -22,8 +22,8 @@
      ONLY (the rest of the condition is dropped); otherwise a NestedLoopJoin with the condition.
    * src/database/database.rs (join branch of query_with_columns): key pairs that do not resolve
      to one left and one right column are ignored, no usable pair = every pair of rows matches;
-     NULL keys never match; the projection resolves plain columns by name and sends every other
-     select item to column 0.
+     NULL keys never match; the projection resolves plain columns by name and evaluates every
+     other select item on the joined row (a subquery item is NULL).
    * src/sql/predicate.rs CompiledPredicate: EXISTS / IN (subquery) that were not decorrelated
      evaluate to TRUE; a scalar subquery is looked up in scalar_subquery_results (computed up
      front by execute_scalar_subquery for the subqueries found in FilterExec predicates: first
@@ -343,7 +343,9 @@ Section Join.
   Definition semi_anti (neg : bool) (cond : option sx) (L R : table) : option table :=
     filter_opt (fun l => option_map (xorb neg) (exists_opt (join_match cond l) R)) L.
 
-  (* resolve_expr_to_idx: plain columns by name, every other select item reads column 0 *)
+  (* resolve_expr_to_idx: plain columns by name; every other select item is evaluated by
+     CompiledPredicate on the joined row, without scalar_subquery_results: a subquery item is
+     NULL (other expressions over the joined row are not modelled) *)
   Definition proj_idx (it : sx) : nat :=
     match it with
     | XCol l i q =>
@@ -354,8 +356,13 @@ Section Join.
         end
     | _ => O
     end.
-  Definition join_project (items : list sx) (l : row) : option row :=
-    map_opt (fun it => let j := proj_idx it in if (j <? lw)%nat then nth_error l j else None) items.
+  Definition join_item (l : row) (it : sx) : option value :=
+    match it with
+    | XCol _ _ _ => let j := proj_idx it in if (j <? lw)%nat then nth_error l j else None
+    | XScalar _ | XIn _ _ _ | XExists _ _ => Some VNull
+    | _ => None
+    end.
+  Definition join_project (items : list sx) (l : row) : option row := map_opt (join_item l) items.
 End Join.
 
 (* ------------------------------------------------------------------ statements *)
